@@ -710,8 +710,7 @@ func (self *Analyzer) assignExpression(node pAst.AssignExpression) ast.AnalyzedA
 		switch node.AssignOperator {
 		case pAst.StdAssignOperatorKind, pAst.PlusAssignOperatorKind,
 			pAst.MinusAssignOperatorKind, pAst.MultiplyAssignOperatorKind,
-			pAst.DivideAssignOperatorKind, pAst.ModuloAssignOperatorKind,
-			pAst.PowerAssignOperatorKind:
+			pAst.DivideAssignOperatorKind, pAst.PowerAssignOperatorKind:
 		default:
 			if prevErr {
 				break
